@@ -54,8 +54,8 @@ class C13(PropertyCheck):
     spec_mode = None
     digest_opts = {"with_mem": False}     # also for the framework's shrinker (in-place set mutation is C19's topic)
 
-    def fixed_probe(self, sid, presets, argv):
-        s = Script(sid, {"now": NOW})
+    def fixed_probe(self, sid, presets, argv, cfg=None):
+        s = Script(sid, dict({"now": NOW}, **(cfg or {})))
         for k, v in presets:
             s.preset(0, k, v, 0)
         s.digest(); s.cmd(0, *argv); s.digest()
@@ -118,6 +118,12 @@ class C13(PropertyCheck):
                     if tuple(argv) in seen: continue
                     seen.add(tuple(argv))
                     out.append(self.fixed_probe("dir%d" % n, rich, argv)); n += 1
+        # (4) a memory limit (policy noeviction) reached part-way through a multi-key write: the write is admitted or
+        # refused as a whole — a refused one has written nothing
+        small = [("p", vstr("x" * 20))]
+        for limit in range(80, 520, 40):
+            for argv in (["MSET"] + [a for i in range(5) for a in ("n%d" % i, "y" * 30)], ["MSET", "p", "z" * 60, "q", "w" * 60, "r", "1"]):
+                out.append(self.fixed_probe("dir%d" % n, small, argv, {"maxmem": limit, "policy": "noeviction"})); n += 1
         for k in ("s", "l", "h", "z"):
             out += [self.fixed_probe("dir%d" % (n + j), base, argv) for j, argv in enumerate(
                 [["MSET", "x", "1", k], ["RENAME", "nosuch", k], ["INCR", k], ["APPEND", k, "x"], ["SETRANGE", k, "0", "x"],
